@@ -1138,6 +1138,9 @@ def gen_func(rng):
     given = {p["id"] for p in [q for q in ps if q["kind"] != "ko"][:nargs]}
     names = [p["id"] for p in ps if p["kind"] != "po" and p["id"] not in given]
     kw = [k for k in names if rng.random() < 0.6] + [k for k in (50, 51) if rng.random() < 0.25]
+    # the name of a positional-only parameter passed by keyword is an ordinary additional key
+    kw += [p["id"] for p in ps if p["kind"] == "po" and rng.random() < 0.12]
+    rng.shuffle(kw)
     case["kwargs"] = [[k, rng.choice(U)] for k in kw]
     toks = set(case["args"]) | {v for _, v in case["kwargs"]}
     types = {p["t"] for p in ps if p["t"] is not None} | {t for t in (case["pos_t"], case["addition_t"]) if t is not None}
@@ -1156,10 +1159,10 @@ def gen_func(rng):
     case["script"] = sc
     # model-side declaration
     fd = lambda p: {"id": p["id"], "aliases": [p["id"]], "t": p["t"], "on_error": p["on_error"],     # noqa
-                    "required": p["required"], "default": p["default"]}
+                    "required": p["required"], "default": p["default"], "po": p["kind"] == "po"}
     case["fields"] = [fd(p) for p in ps]
     case["positional"] = [fd(p) for p in ps if p["kind"] != "ko"]
-    case["pos_only"] = [fd(p) for p in ps if p["kind"] == "po"]
+    case["pos_only"] = [[i, fd(p)] for i, p in enumerate(ps) if p["kind"] == "po"]
     case["exclude_indexes"] = []
     case["pos_var_index"] = npos if case["var_pos"] else None
     return case
